@@ -354,8 +354,22 @@ def relayout(a, layout):
 def run_vjp(e, seed, layout=0):
     reset_global_state()
     arrays = operand_arrays(e, seed)
-    xs = [mg.tensor(relayout(a, layout), copy=False) for a in arrays]
-    out = e.fn(*xs)
+    if layout in (4, 5):
+        # two operands over ONE ndarray object: 4 = two tensors (copy=False) wrapping the same array, 5 = a tensor and its own .data passed raw
+        if len(arrays) < 2 or arrays[0].shape != arrays[1].shape or arrays[0].dtype != arrays[1].dtype or arrays[0].dtype.kind != "f":
+            return {"label": e.label, "family": e.family, "layout": layout, "skipped": "no two float operands of one shape", "errs": []}
+        arrays = [arrays[0], arrays[0].copy()] + list(arrays[2:])
+        x0 = mg.tensor(arrays[0].copy(), copy=False)
+        xs = [x0, mg.tensor(x0.data, copy=False) if layout == 4 else x0.data] + [mg.tensor(a.copy(), copy=False) for a in arrays[2:]]
+        try:
+            out = e.fn(*xs)
+        except Exception as ex:
+            return {"label": e.label, "family": e.family, "layout": layout, "skipped": "raises on equal operands: " + type(ex).__name__, "errs": []}
+    else:
+        xs = [mg.tensor(relayout(a, layout), copy=False) for a in arrays]
+        out = e.fn(*xs)
+    if not isinstance(out, mg.Tensor) or out.constant:
+        return {"label": e.label, "family": e.family, "layout": layout, "skipped": "constant result", "errs": []}
     res = {"label": e.label, "family": e.family, "out_shape": list(out.shape), "sizes": [int(a.size) for a in arrays], "layout": layout}
     rs = np.random.RandomState(seed + 7)
     g = rs.randn(*out.shape) if out.shape else np.asarray(rs.randn())
@@ -363,6 +377,8 @@ def run_vjp(e, seed, layout=0):
     out.backward(g.copy())
     errs = []
     for k, x in enumerate(xs):
+        if not isinstance(x, mg.Tensor):
+            continue
         ana = x.grad
         num = numeric_grad(e, arrays, g, k)
         if ana is None:
